@@ -286,7 +286,7 @@ func (p *Prog) globalByteSlice(g *ssa.Global) ([]byte, bool) {
 // rawHeadExempt: run-time bytes that stand in head position by design, with the reason.
 var rawHeadExempt = map[string]string{
 	"(*singleElements).Encode:1": "hash level of a last-level element list: same bound as below",
-	"(*hkeyElements).Encode:1": "hash level of an element list: bounded by the number of digest levels of the client's Digester (4 for the built-in one); levels >= 24 are outside the supported range (A-CLIENT)",
+	"(*hkeyElements).Encode:1":   "hash level of an element list: bounded by the number of digest levels of the client's Digester (4 for the built-in one); levels >= 24 are outside the supported range (A-CLIENT)",
 }
 
 func ruleL21(p *Prog, r *Report) {
